@@ -1024,6 +1024,13 @@ func (l *lexer) decodeUnicode() rune {
 		return stopTok
 	}
 
+	if rr > unicode.MaxRune {
+		// \u{110000} and up are not code points; writing them out would
+		// silently store U+FFFD instead.
+		l.Error("invalid Unicode escape sequence")
+		return stopTok
+	}
+
 	return rr
 }
 
